@@ -630,9 +630,9 @@ def item_templates(ctx, rid):
     arms = {p.split("(")[0].split("::")[-1]: b for p, g, b in t[2]}
     S = "P0.kind@TypeIRKind::Struct.0"
     E = "P0.kind@TypeIRKind::Enum.0"
-    exp_struct = ("Extend::extend(P1,T[#0 #1 pub struct #2 #3 #4 #5](P0.derives,TypeIR::docs(P0),TypeIR::ident(P0),P0.type_params,"
-                  "CompositeIR::struct_field_tokens(%s,TypeParameters::unused_params_phantom_data(P0.type_params),P0.insert_codec_attributes,P2),"
-                  "then((let CompositeIRKind::NoFields=%s.kind||let CompositeIRKind::Unnamed(_)=%s.kind),T[;]())))") % (S, S, S)
+    # the two private field emitters are looked through: the struct / variant templates carry the field templates in their field slot
+    exp_struct = ("Extend::extend(P1,T[#0 #1 pub struct #2 #3 #4 #5](P0.derives,TypeIR::docs(P0),TypeIR::ident(P0),P0.type_params,%s,"
+                  "then((let CompositeIRKind::NoFields=%s.kind||let CompositeIRKind::Unnamed(_)=%s.kind),T[;]())))") % (struct_fields_exp(S), S, S)
     if "Struct" in arms:
         expect_term(ctx, rid, "item/struct", fn["sp"], arms["Struct"], exp_struct,
                     "`#derives #docs pub struct #ident #generics #fields #semi`; `;` iff the struct is a unit or tuple struct; marker from the unused-parameter set")
@@ -640,7 +640,7 @@ def item_templates(ctx, rid):
         ctx.bad(rid, "item/struct", fn["sp"], "no Struct arm")
     EV = "elem(%s.variants)" % E
     VAR = ("for(%s.variants){T[#0 #1 #2 #3](then(P0.insert_codec_attributes,T[# [ codec ( index = #0 ) ]](Literal::u8_unsuffixed(%s.0))),"
-           "%s.1.docs,%s.1.name,CompositeIR::enum_field_tokens(%s.1,P0.insert_codec_attributes,P2))}") % (E, EV, EV, EV, EV)
+           "%s.1.docs,%s.1.name,%s)}") % (E, EV, EV, EV, enum_fields_exp(EV + ".1"))
     PH = "TypeParameters::unused_params_phantom_data(P0.type_params)"
     VARS = "vec+(%s,if(let v1::Some($)=%s){T[__Ignore ( #0 )](%s@v1::Some.0)}else{'()'})" % (VAR, PH, PH)
     exp_enum = "Extend::extend(P1,T[#0 #1 pub enum #2 #3 { #( #4 , )* }](P0.derives,TypeIR::docs(P0),TypeIR::ident(P0),P0.type_params,%s))" % VARS
@@ -659,36 +659,52 @@ def item_templates(ctx, rid):
         expect_term(ctx, rid, "item/helper-" + nm, h["sp"], _norm(ctx, h).term(h["body"]), exp_h, "item %s taken from the struct / enum IR" % nm)
 
 
+PH_GEN = "TypeParameters::unused_params_phantom_data(P0.type_params)"
+FL_GEN = "P0.insert_codec_attributes"
+ST_GEN = "P2"
+
+
+def struct_fields_exp(C):
+    """the field list of a struct item for the composite C (a term in TypeIR::to_tokens' own parameters)"""
+    SKIP = "then(%s,T[# [ codec ( skip ) ]]())" % FL_GEN
+    return q.mk_match(C + ".kind", [
+        ("CompositeIRKind::NoFields", "if(let v1::Some($)=%s){T[( pub #0 )](%s@v1::Some.0)}else{T[]()}" % (PH_GEN, PH_GEN)),
+        ("CompositeIRKind::Named($)", "T[{ #( #0 )* #1 }](Iterator::map(%s.kind@CompositeIRKind::Named.0,|1|{T[#0 pub #1 : #2 ,](%s,C1_0.0,ToTokensWithSettings::to_token_stream(C1_0.1,%s))}),"
+                                      "Option::map(%s,|1|{T[#0 pub __ignore : #1](%s,C1_0)}))" % (C, CA("C1_0.1", FL_GEN), ST_GEN, PH_GEN, SKIP)),
+        ("CompositeIRKind::Unnamed($)", "T[( #( #0 )* #1 )](Iterator::map(%s.kind@CompositeIRKind::Unnamed.0,|1|{T[#0 pub #1 ,](%s,ToTokensWithSettings::to_token_stream(C1_0,%s))}),"
+                                        "Option::map(%s,|1|{T[#0 pub #1](%s,C1_0)}))" % (C, CA("C1_0", FL_GEN), ST_GEN, PH_GEN, SKIP))])
+
+
+def enum_fields_exp(C):
+    """the field list of an enum variant for the composite C"""
+    return q.mk_match(C + ".kind", [
+        ("CompositeIRKind::NoFields", "T[]()"),
+        ("CompositeIRKind::Named($)", "T[{ #( #0 )* }](Iterator::map(%s.kind@CompositeIRKind::Named.0,|1|{T[#0 #1 : #2 ,](%s,C1_0.0,ToTokensWithSettings::to_token_stream(C1_0.1,%s))}))" % (C, CA("C1_0.1", FL_GEN), ST_GEN)),
+        ("CompositeIRKind::Unnamed($)", "T[( #( #0 )* )](Iterator::map(%s.kind@CompositeIRKind::Unnamed.0,|1|{T[#0 #1 ,](%s,ToTokensWithSettings::to_token_stream(C1_0,%s))}))" % (C, CA("C1_0", FL_GEN), ST_GEN))])
+
+
 def field_templates(ctx, rid, strict_alloc=True):
-    """K4+K5+K14: the four field emitters, compact attribute guard, marker with codec(skip), Box wrapper"""
-    sf = q.fn1(ctx.P, "CompositeIR::struct_field_tokens", "scale_typegen")
-    ef = q.fn1(ctx.P, "CompositeIR::enum_field_tokens", "scale_typegen")
-    if sf is None or ef is None:
-        ctx.bad(rid, "missing-anchor/field-emitters", "", "struct_field_tokens / enum_field_tokens not found")
+    """K4+K5+K14: the four field emitters, compact attribute guard, marker with codec(skip), Box wrapper. The emitters are private helpers of
+    TypeIR::to_tokens and are looked through: their templates are read from the field slot of the struct / variant template."""
+    fn = type_ir_tokens_fn(ctx, rid)
+    if fn is None:
         return
-    Ns, Ne = _norm(ctx, sf), _norm(ctx, ef)
-    i_ph = q.param_index(sf, lambda t: t.startswith("std::option::Option<syn::TypePath"))
-    i_fl = q.param_index(sf, lambda t: t == "bool")
-    i_st = q.param_index(sf, lambda t: t.endswith("TypeGeneratorSettings"))
-    PH, FL, ST = "P%d" % i_ph, "P%d" % i_fl, "P%d" % i_st
-    SKIP = "then(%s,T[# [ codec ( skip ) ]]())" % FL
-    exp_s = q.mk_match("P0.kind", [
-        ("CompositeIRKind::NoFields", "if(let v1::Some($)=%s){T[( pub #0 )](%s@v1::Some.0)}else{T[]()}" % (PH, PH)),
-        ("CompositeIRKind::Named($)", "T[{ #( #0 )* #1 }](Iterator::map(P0.kind@CompositeIRKind::Named.0,|1|{T[#0 pub #1 : #2 ,](%s,C1_0.0,ToTokensWithSettings::to_token_stream(C1_0.1,%s))}),"
-                                      "Option::map(%s,|1|{T[#0 pub __ignore : #1](%s,C1_0)}))" % (CA("C1_0.1", FL), ST, PH, SKIP)),
-        ("CompositeIRKind::Unnamed($)", "T[( #( #0 )* #1 )](Iterator::map(P0.kind@CompositeIRKind::Unnamed.0,|1|{T[#0 pub #1 ,](%s,ToTokensWithSettings::to_token_stream(C1_0,%s))}),"
-                                        "Option::map(%s,|1|{T[#0 pub #1](%s,C1_0)}))" % (CA("C1_0", FL), ST, PH, SKIP))])
-    expect_term(ctx, rid, "fields/struct", sf["sp"], Ns.term(sf["body"]), exp_s,
+    t = _norm(ctx, fn).term(fn["body"])
+    slot_s = slot_e = None
+    for x in subterms(t):
+        if x[0] == "tpl" and x[2] == "#0 #1 pub struct #2 #3 #4 #5" and len(x[3]) == 6:
+            slot_s = x[3][4]
+        if x[0] == "tpl" and x[2] == "#0 #1 #2 #3" and len(x[3]) == 4 and slot_e is None:
+            slot_e = x[3][3]
+    S = "P0.kind@TypeIRKind::Struct.0"
+    EV = "elem(P0.kind@TypeIRKind::Enum.0.variants).1"
+    if slot_s is None or slot_e is None:
+        ctx.bad(rid, "missing-anchor/field-emitters", fn["sp"], "the field slot of the struct template / of the variant template was not found in TypeIR::to_tokens")
+        return
+    expect_term(ctx, rid, "fields/struct", fn["sp"], slot_s, struct_fields_exp(S),
                 "unit: `(pub #marker)` iff marker; named: `{ #(#[codec(compact)]? pub name: ty,)* #[codec(skip)]? pub __ignore: marker }`; tuple likewise; "
                 "compact attribute iff is_compact && flag; fields in IR order")
-    j_fl = q.param_index(ef, lambda t: t == "bool")
-    j_st = q.param_index(ef, lambda t: t.endswith("TypeGeneratorSettings"))
-    FL2, ST2 = "P%d" % j_fl, "P%d" % j_st
-    exp_e = q.mk_match("P0.kind", [
-        ("CompositeIRKind::NoFields", "T[]()"),
-        ("CompositeIRKind::Named($)", "T[{ #( #0 )* }](Iterator::map(P0.kind@CompositeIRKind::Named.0,|1|{T[#0 #1 : #2 ,](%s,C1_0.0,ToTokensWithSettings::to_token_stream(C1_0.1,%s))}))" % (CA("C1_0.1", FL2), ST2)),
-        ("CompositeIRKind::Unnamed($)", "T[( #( #0 )* )](Iterator::map(P0.kind@CompositeIRKind::Unnamed.0,|1|{T[#0 #1 ,](%s,ToTokensWithSettings::to_token_stream(C1_0,%s))}))" % (CA("C1_0", FL2), ST2))])
-    expect_term(ctx, rid, "fields/enum", ef["sp"], Ne.term(ef["body"]), exp_e,
+    expect_term(ctx, rid, "fields/enum", fn["sp"], slot_e, enum_fields_exp(EV),
                 "variant fields: same slots as the struct emitter without `pub` and without marker (sibling agreement)")
     bw = [b for b in q.fn_by_suffix(ctx.P, "ToTokensWithSettings>::to_tokens", "scale_typegen") if "CompositeFieldIR as" in b["path"]]
     if len(bw) != 1:
